@@ -10,11 +10,17 @@
   watchdog reports an operation that never returns — F12); CONC-flight: 2-9 real concurrent Get/BulkGet callers per round
   behind blocked loaders: loader executions per key never overlap, a successful load runs once, every caller returns the
   outcome of the load it joined, no in-flight record is left at quiescence (white box), no caller hangs.
-  PARTIAL: the interleaving model of the flight protocol (all schedules) is not mechanised.
+  Interleaving model (Conc.Flight): one key, unboundedly many callers, writers and call objects, every schedule of the atomic
+  steps join / create / unregister / cancel / kill / resume: loader executions overlap only if a write, invalidation or
+  eviction removed the registered call in between; no record is left once no load runs; a waiter is never stuck.
+  PARTIAL: the model's atomic steps are tied to the code by the skeletons (which include Get / BulkGet / refreshKey /
+  bulkRefreshKeys: no return between startCall and doCall/doBulkCall, every path reaches wait) and by CONC-flight, not by a
+  step-by-step refinement proof; bulk calls are modelled per key.
 -/
 import OtterVerif.Props.C10
 import OtterVerif.Gen.Skeleton
 import OtterVerif.Conc.FlightSkeleton
+import OtterVerif.Conc.Flight
 
 namespace OtterVerif.Props.C08
 open OtterVerif OtterVerif.Spec
@@ -69,6 +75,73 @@ theorem skeleton_group_delete : Gen.Skeleton.group_delete = Conc.FlightSkeleton.
 theorem skeleton_group_doCall : Gen.Skeleton.group_doCall = Conc.FlightSkeleton.group_doCall := by decide
 theorem skeleton_group_doBulkCall : Gen.Skeleton.group_doBulkCall = Conc.FlightSkeleton.group_doBulkCall := by decide
 theorem skeleton_cache_afterDeleteCall : Gen.Skeleton.cache_afterDeleteCall = Conc.FlightSkeleton.cache_afterDeleteCall := by decide
+
+theorem skeleton_cache_Get : Gen.Skeleton.cache_Get = Conc.FlightSkeleton.cache_Get := by decide
+theorem skeleton_cache_BulkGet : Gen.Skeleton.cache_BulkGet = Conc.FlightSkeleton.cache_BulkGet := by decide
+theorem skeleton_cache_refreshKey : Gen.Skeleton.cache_refreshKey = Conc.FlightSkeleton.cache_refreshKey := by decide
+theorem skeleton_cache_bulkRefreshKeys : Gen.Skeleton.cache_bulkRefreshKeys = Conc.FlightSkeleton.cache_bulkRefreshKeys := by decide
+theorem skeleton_cache_wrapLoad : Gen.Skeleton.cache_wrapLoad = Conc.FlightSkeleton.cache_wrapLoad := by decide
+theorem skeleton_call_cancel : Gen.Skeleton.call_cancel = Conc.FlightSkeleton.call_cancel := by decide
+theorem skeleton_call_wait : Gen.Skeleton.call_wait = Conc.FlightSkeleton.call_wait := by decide
+
+/-! ### All interleavings (Conc.Flight) -/
+
+open OtterVerif.Conc.Flight in
+/-- loader invocations for one key never overlap in time unless the key was written, invalidated or evicted in between:
+    two call objects that are both being loaded and were both not removed by a writer are the same object -/
+theorem c08_no_overlap {s : St} (h : Reach s) (i j : Nat) (hi : s.phase i = .loading) (hj : s.phase j = .loading)
+    (oi : s.orphaned i = false) (oj : s.orphaned j = false) : i = j := by
+  have inv := reach_inv h
+  have a := inv.own i hi oi
+  have b := inv.own j hj oj
+  rw [a] at b
+  exact Option.some.inj b
+
+open OtterVerif.Conc.Flight in
+/-- … so two distinct loads in progress imply that a writer removed one of them from the table -/
+theorem c08_overlap_needs_write {s : St} (h : Reach s) (i j : Nat) (hne : i ≠ j) (hi : s.phase i = .loading)
+    (hj : s.phase j = .loading) : s.orphaned i = true ∨ s.orphaned j = true := by
+  cases oi : s.orphaned i with
+  | true => exact Or.inl rfl
+  | false =>
+    cases oj : s.orphaned j with
+    | true => exact Or.inr rfl
+    | false => exact absurd (c08_no_overlap h i j hi hj oi oj) hne
+
+open OtterVerif.Conc.Flight in
+/-- a loader that fails, reports not-found or panics leaves no in-flight record behind: once no load is running the table
+    holds no call (the record is removed by the leader before it releases the waiters) -/
+theorem c08_no_record_left {s : St} (h : Reach s) (hq : ∀ i, s.phase i ≠ .loading) : s.cur = none := by
+  cases hc : s.cur with
+  | none => rfl
+  | some i => exact absurd ((reach_inv h).reg i hc).1 (hq i)
+
+open OtterVerif.Conc.Flight in
+/-- every waiter terminates: whenever a caller waits on object i, a step of i's leader or of the waiter is enabled that
+    strictly advances i (loading → finishing → done → one waiter fewer) — under the assumption that loaders return -/
+theorem c08_waiter_progress {s : St} (h : Reach s) (i : Nat) (hw : 0 < s.waiting i) :
+    ∃ s', Step s s' ∧ ((s.phase i = .loading ∧ s'.phase i = .finishing) ∨ (s.phase i = .finishing ∧ s'.phase i = .done) ∨
+      (s.phase i = .done ∧ s'.waiting i + 1 = s.waiting i)) := by
+  have hnf := (reach_inv h).wait i hw
+  cases hp : s.phase i with
+  | fresh => exact absurd hp hnf
+  | loading => exact ⟨_, Step.unregister s i hp, Or.inl ⟨rfl, by simp⟩⟩
+  | finishing => exact ⟨_, Step.cancel s i hp, Or.inr (Or.inl ⟨rfl, by simp⟩)⟩
+  | done => exact ⟨_, Step.resume s i hp hw, Or.inr (Or.inr ⟨rfl, by simp; omega⟩)⟩
+
+open OtterVerif.Conc.Flight in
+/-- a later Get loads afresh: with no load running, the next caller registers a new call and becomes its leader -/
+theorem c08_later_get_creates {s : St} (h : Reach s) (hq : ∀ i, s.phase i ≠ .loading) :
+    ∃ s', Step s s' ∧ s'.cur = some s.next ∧ s'.phase s.next = .loading :=
+  ⟨_, Step.create s (c08_no_record_left h hq), rfl, by simp⟩
+
+open OtterVerif.Conc.Flight in
+/-- non-vacuity: two overlapping loads are reachable (create, kill by a writer, create) and the first is orphaned -/
+theorem c08_overlap_reachable : ∃ s, Reach s ∧ s.phase 0 = .loading ∧ s.phase 1 = .loading ∧ s.orphaned 0 = true := by
+  refine ⟨_, Reach.step (Reach.step (Reach.step Reach.init (Step.create {} rfl)) (Step.kill _)) (Step.create _ rfl), ?_, ?_, ?_⟩
+  · simp [upd]
+  · simp [upd]
+  · simp [upd]
 
 /-! ### Non-vacuity -/
 def s1 : State := { now := 1, inflight := [(3, 7)] }
